@@ -1,40 +1,48 @@
 #!/usr/bin/env python3
-"""Re-run the registered quick check of every seeded change (seeded/<name>/patch.diff) against /repo with the change applied,
-restoring /repo afterwards.  Prints one line per seed; exit 1 if a seed that was caught before is no longer caught.
+"""Re-run the registered quick check of every seeded change (seeded/<name>/patch.diff) against a scratch COPY of /repo's current
+tree with the change applied (PYVC_REPO; /repo itself is not touched).  Prints one line per seed; exit 1 if a valid seed is not
+caught.  Seeds whose meta.json says "valid": false (neutralised by a later fix) are reported but not counted.
 Usage: tools/seed_recheck.py [name-glob ...]"""
-import fnmatch
-import glob
-import json
-import os
-import subprocess
-import sys
-
+import fnmatch, glob, json, os, shutil, subprocess, sys, tempfile
 ROOT = os.path.dirname(os.path.dirname(os.path.abspath(__file__)))
 
 
 def main():
     pats = sys.argv[1:] or ['*']
-    if subprocess.run(['git', '-C', '/repo', 'status', '--porcelain'], capture_output=True, text=True).stdout.strip():
-        print('/repo is not clean; refusing')
-        return 3
     bad = 0
     for d in sorted(glob.glob(os.path.join(ROOT, 'seeded', '*', ''))):
         name = os.path.basename(d.rstrip('/'))
-        if not any(fnmatch.fnmatch(name, p) for p in pats):
+        if not any(fnmatch.fnmatch(name, p) for p in pats) or not os.path.exists(os.path.join(d, 'meta.json')):
             continue
         meta = json.load(open(os.path.join(d, 'meta.json')))
-        prop = meta['property']
+        props = meta.get('checks_run') or [meta['property']]
+        scratch = tempfile.mkdtemp(prefix='seed_recheck_')
         try:
-            subprocess.run(['git', '-C', '/repo', 'apply', os.path.join(d, 'patch.diff')], check=True)
-            p = subprocess.run([os.path.join(ROOT, 'bin', 'check'), prop, '--tier', 'quick', '--no-evidence'], capture_output=True, text=True,
-                               cwd=ROOT, timeout=3600)
+            shutil.copytree('/repo/circuits', os.path.join(scratch, 'circuits'))
+            p = subprocess.run(['patch', '-p1', '--no-backup-if-mismatch', '-s', '-d', scratch, '-i', os.path.join(d, 'patch.diff')],
+                               capture_output=True, text=True)
+            if p.returncode != 0:
+                print('%-50s patch does not apply to the current tree: %s' % (name, p.stdout.strip().splitlines()[-1][:100]))
+                bad += 1
+                continue
+            rcs, viol = [], []
+            for prop in props:
+                p = subprocess.run([os.path.join(ROOT, 'bin', 'check'), prop, '--tier', 'quick', '--no-evidence'], capture_output=True,
+                                   text=True, cwd=ROOT, timeout=3600, env=dict(os.environ, PYVC_REPO=scratch))
+                rcs.append(p.returncode)
+                viol += [ln for ln in p.stdout.splitlines() if ln.startswith('VIOLATION')]
+                if p.returncode == 1:
+                    break
         finally:
-            subprocess.run(['git', '-C', '/repo', 'checkout', '--', '.'], check=True)
-        viol = [ln for ln in p.stdout.splitlines() if ln.startswith('VIOLATION')]
-        ok = p.returncode == 1 and bool(viol)
-        print('%-45s rc=%d %s %s' % (name, p.returncode, 'caught' if ok else 'MISSED', viol[0][:150] if viol else p.stdout.strip().splitlines()[-1][:150]))
+            shutil.rmtree(scratch, ignore_errors=True)
+        ok = 1 in rcs and bool(viol)
+        valid = meta.get('valid', True)
+        print('%-50s rc=%s %s %s' % (name, rcs, ('caught' if ok else 'MISSED') if valid else ('(not a violation any more) ' + ('alarm!' if ok else 'silent')),
+                                     viol[0][:140].replace(scratch, '<copy>') if viol else ''))
         sys.stdout.flush()
-        if not ok:
+        if valid and not ok:
+            bad += 1
+        if not valid and ok:
             bad += 1
     return 1 if bad else 0
 
